@@ -427,7 +427,10 @@ def _remove_invalid_ckpts(
     for path in old_ckpts:
       if keep_every_n_steps:
         step_number = _checkpoint_path_step(path)
-        if step_number and (step_number - last_kept) >= keep_every_n_steps:
+        if (
+          step_number is not None
+          and (step_number - last_kept) >= keep_every_n_steps
+        ):
           logging.debug(
             'Not deleting %s, because last_kept=%f and keeping '
             'every %d steps.',
